@@ -204,6 +204,28 @@ func (m CoseMap) GetMap(k any) (CoseMap, error) {
 
 // MarshalCBOR implements the CBOR Marshaler interface for CoseMap.
 func (m CoseMap) MarshalCBOR() ([]byte, error) {
+	// integer labels of different Go types (int(1), int64(1), uint8(1) ...) are distinct Go map keys
+	// but the same CBOR key: refuse to emit a map with duplicate keys.
+	if len(m) > 1 {
+		seen := make(map[any]struct{}, len(m))
+		for k := range m {
+			var nk any = k
+			switch rv := reflect.ValueOf(k); rv.Kind() {
+			case reflect.Int8, reflect.Int16, reflect.Int32, reflect.Int, reflect.Int64:
+				nk = rv.Int()
+			case reflect.Uint8, reflect.Uint16, reflect.Uint32, reflect.Uint, reflect.Uint64:
+				if x := rv.Uint(); x <= math.MaxInt64 {
+					nk = int64(x)
+				} else {
+					nk = x
+				}
+			}
+			if _, ok := seen[nk]; ok {
+				return nil, fmt.Errorf("cose/key: CoseMap.MarshalCBOR: duplicate key %v", k)
+			}
+			seen[nk] = struct{}{}
+		}
+	}
 	return MarshalCBOR(map[any]any(m))
 }
 
